@@ -423,6 +423,12 @@ theorem emitted_conforms (c : Core) (op : Op) (hw : op.wf c = true) :
           have := rep3_of_all_mod3 _ hall (by rw [hlace]; simp)
           simp [grammarOk, bGenOk, ai_isInt, this]
       · simp at ha
+  | register h =>
+    simp only [Core.stepCore] at hp
+    split at hp
+    · simp at hp
+    · simp [Core.skip] at hp
+  | sync => simp [Core.stepCore] at hp
   | bind => simp [Core.stepCore] at hp
   | endBind => simp [Core.stepCore] at hp
   | raise => simp [Core.stepCore] at hp
@@ -582,7 +588,23 @@ theorem bind_raises_sends_nothing (cl : Client) (hs : cl.stack = []) (hk : cl.sk
     waits in the open blocks, outermost first -/
 def allMsgs (cl : Client) : List Msg := collect cl.wire ++ cl.stack.reverse.flatten
 
-/-- For EVERY history of client calls and (arbitrarily nested, even unbalanced) `bind`/`end`
+/-- `yield from s.sync()` inside (any nesting of) bind blocks: everything issued so far is put on
+    the wire — one bundle, issue order, outermost block's commands first — before the sync; the
+    blocks stay open and go on collecting from empty. -/
+theorem sync_flushes_everything (cl : Client) (hk : cl.skipDepth = 0) :
+    collect (cl.step .sync).1.wire = allMsgs cl ∧ (∀ l ∈ (cl.step .sync).1.stack, l = []) ∧
+    (cl.step .sync).1.stack.length = cl.stack.length ∧ (cl.step .sync).1.core = cl.core ∧
+    (cl.step .sync).2.2 = (if cl.stack.reverse.flatten.isEmpty then []
+        else [Packet.bundle cl.core.latency cl.stack.reverse.flatten]) ++ [Packet.sync] := by
+  unfold Client.step
+  rw [if_neg (by omega)]
+  refine ⟨?_, by simp, by simp, rfl, rfl⟩
+  simp only [allMsgs]
+  by_cases he : cl.stack.reverse.flatten.isEmpty
+  · simp [he, collect, Packet.msgs, List.isEmpty_iff.mp he]
+  · simp [he, collect, Packet.msgs]
+
+/-- For EVERY history of client calls, `sync`s and (arbitrarily nested, even unbalanced) `bind`/`end`
     tokens in which nothing raises: binding only regroups.  No message is lost, duplicated or
     reordered, and the client state is the one of the unbound run. -/
 theorem bind_preserves_issue_order (cl : Client) (hk : cl.skipDepth = 0) (ops : List Op)
@@ -626,8 +648,19 @@ theorem bind_preserves_issue_order (cl : Client) (hk : cl.skipDepth = 0) (ops : 
         unfold Client.step
         rw [if_neg (by omega)]
         cases op <;> simp [Op.plain] at hpl
-        · simp [allMsgs, hk]
-        · cases hst : cl.stack with
+        case sync =>
+          have hz : (List.map (fun _ => ([] : List Msg)) cl.stack).reverse.flatten = [] := by
+            generalize cl.stack = st
+            induction st with
+            | nil => rfl
+            | cons a r ih => simp [ih]
+          simp only [allMsgs, hk, hz, List.append_nil, true_and]
+          by_cases he : cl.stack.reverse.flatten.isEmpty
+          · simp [he, collect, Packet.msgs, List.isEmpty_iff.mp he]
+          · simp [he, collect, Packet.msgs]
+        case bind => simp [allMsgs, hk]
+        case endBind =>
+          cases hst : cl.stack with
           | nil => simp [allMsgs, hst, hk]
           | cons top rest =>
             cases rest with
@@ -636,7 +669,7 @@ theorem bind_preserves_issue_order (cl : Client) (hk : cl.skipDepth = 0) (ops : 
               · simp [allMsgs, hst, hk, he, collect, List.isEmpty_iff.mp he]
               · simp [allMsgs, hst, hk, he, collect, Packet.msgs]
             | cons outer rest' => simp [allMsgs, hst, hk, List.append_assoc]
-        · exact absurd rfl hne
+        case raise => exact absurd rfl hne
       obtain ⟨h1, h2, h3⟩ := hstep
       have := ih (cl.step op).1 h2 hno' (by rw [h1]; exact hr)
       rw [h1, h3] at this
@@ -1008,6 +1041,8 @@ theorem corewf_step (c : Core) (op : Op) (h : CoreWf c) (ha : op.allocOk = true)
     split
     · exact h
     · split <;> exact h
+  | register hh => simp only [Core.stepCore]; split <;> exact h
+  | sync => exact h
   | bind => exact h
   | endBind => exact h
   | raise => exact h
